@@ -1,5 +1,6 @@
 import TakVerif.Props.C05
 import TakVerif.Proofs.ServeCache
+import TakVerif.Proofs.ServeDepth1
 
 /-!
 # C05 at its consumers: the RPCs `Analyze` and `IsPositionInTak` of `cmd/internal/serve`
@@ -18,37 +19,43 @@ C05 (`GameOK`, `EvalOK`, `HashInj`), which is where they are discharged or assum
 * `serve_verdict_sound`: hence every `precise` `Analyze` response with `|Value| > WinThreshold` reports a real forced
   win/loss of the analysed position, and `InTak = true` means the side to move after the pass has a forced win —
   whatever was asked of the server before.
-* `intak_iff_statement` / `intak_iff_partial`: see there. -/
+* `intak_iff`: `IsPositionInTak` answers exactly the question it is named after — `InTak` iff, after a pass, the side then
+  to move has a legal move that ends the game in its favour at once, and `TakMove` spells such a move — on a server with
+  any past.  This needed a new result about the engine (`Search.analyze_depth1`, `Proofs/ServeDepth1.lean`): a depth-1
+  precise engine WITH a transposition table reports `negamax 1` and a move attaining it after any history of calls
+  (`C05.analyze_exact` is about engines without a table; the cached engines have the default table). -/
 namespace C05
 open Search Tak Tak.Serve Go
 
 variable {P M : Type} [DecidableEq M]
 
-/-- the move order used by the request's engine call keeps the set of generated moves (`sort.Sort` permutes) -/
-def ReqOK : Req M → Prop
-  | .analyze _ _ _ o => OrderOK o
+/-- the environment of the request's engine call satisfies `Ok` (below: `OrderOK`, the move order of `sort.Sort` keeps
+the set of generated moves; for `intak_iff` also `NoCancel`, the request context is not cancelled) -/
+def ReqOK (Ok : Oracle M → Prop) : Req M → Prop
+  | .analyze _ _ _ o => Ok o
   | .canonicalize _ _ => True
-  | .isInTak _ o => OrderOK o
+  | .isInTak _ o => Ok o
 
 /-- an answered request, read as the last call of a history of `Analyze` calls on a per-key engine -/
-def AnsweredByHistory (env : Env P M) : Req M → Except Err Resp → Prop
+def AnsweredByHistory (Ok : Oracle M → Prop) (env : Env P M) : Req M → Except Err Resp → Prop
   | .analyze position depth precise o, .ok (.analyze _ v) =>
     ∃ p, env.parseTPS position = .ok p ∧
-      ∃ (h : History P M) (rs : List (P × Int)) (eng : Eng M), (∀ x ∈ h, OrderOK x.2) ∧
+      ∃ (h : History P M) (rs : List (P × Int)) (eng : Eng M), (∀ x ∈ h, Ok x.2) ∧
         runCalls (env.game (env.size p)) (playerCfg env.tableEntries depth precise) (h ++ [(p, o)])
           (Eng.new (env.game (env.size p)) (playerCfg env.tableEntries depth precise)) = .ok (rs ++ [(p, v)], eng)
   | .isInTak position o, .ok (.isInTak inTak _) =>
     ∃ p q v, env.parseTPS position = .ok p ∧ env.pass p = .ok q ∧ inTak = decide (v > Facts.winThreshold) ∧
-      ∃ (h : History P M) (rs : List (P × Int)) (eng : Eng M), (∀ x ∈ h, OrderOK x.2) ∧
+      ∃ (h : History P M) (rs : List (P × Int)) (eng : Eng M), (∀ x ∈ h, Ok x.2) ∧
         runCalls (env.game (env.size q)) (playerCfg env.tableEntries 1 true) (h ++ [(q, o)])
           (Eng.new (env.game (env.size q)) (playerCfg env.tableEntries 1 true)) = .ok (rs ++ [(q, v)], eng)
   | _, _ => True
 
 /-- both caches satisfy the cache invariant -/
-def ServerInv (env : Env P M) (s : Server M) : Prop := CacheInv env s.analyzeCache ∧ CacheInv env s.istakCache
+def ServerInv (Ok : Oracle M → Prop) (env : Env P M) (s : Server M) : Prop :=
+  CacheInv Ok env s.analyzeCache ∧ CacheInv Ok env s.istakCache
 
-theorem callPlayer_error_inv (env : Env P M) (o : Oracle M) (c : Cache M) (p : P) (e : Err) (c' : Cache M)
-    (h : callPlayer env o c p = (.error e, c')) : CacheInv env c' := by
+theorem callPlayer_error_inv (Ok : Oracle M → Prop) (env : Env P M) (o : Oracle M) (c : Cache M) (p : P) (e : Err)
+    (c' : Cache M) (h : callPlayer env o c p = (.error e, c')) : CacheInv Ok env c' := by
   obtain ⟨size, depth, precise, player⟩ := c
   cases player with
   | none =>
@@ -64,8 +71,9 @@ theorem callPlayer_error_inv (env : Env P M) (o : Oracle M) (c : Cache M) (p : P
       · simp only [Prod.mk.injEq] at h; cases h.1
 
 /-- one request: the answer is the last call of a history, and the caches stay histories -/
-theorem step_history (env : Env P M) (s : Server M) (r : Req M) (hr : ReqOK r) (hs : ServerInv env s) :
-    AnsweredByHistory env r (s.step env r).1 ∧ ServerInv env (s.step env r).2 := by
+theorem step_history (Ok : Oracle M → Prop) (env : Env P M) (s : Server M) (r : Req M) (hr : ReqOK Ok r)
+    (hs : ServerInv Ok env s) :
+    AnsweredByHistory Ok env r (s.step env r).1 ∧ ServerInv Ok env (s.step env r).2 := by
   obtain ⟨ac, ic⟩ := s
   obtain ⟨hac, hic⟩ := hs
   cases r with
@@ -78,14 +86,14 @@ theorem step_history (env : Env P M) (s : Server M) (r : Req M) (hr : ReqOK r) (
     | error e => exact ⟨trivial, hac, hic⟩
     | ok p =>
       simp only []
-      obtain ⟨hinv, hsz, hd, hpr⟩ := getPlayer_inv env ac (env.size p) depth precise hac
+      obtain ⟨hinv, hsz, hd, hpr⟩ := getPlayer_inv Ok env ac (env.size p) depth precise hac
       cases hcp : callPlayer env o (ac.getPlayer env (env.size p) depth precise) p with
       | mk out c' =>
         cases out with
-        | error e => exact ⟨trivial, callPlayer_error_inv env o _ p e c' hcp, hic⟩
+        | error e => exact ⟨trivial, callPlayer_error_inv Ok env o _ p e c' hcp, hic⟩
         | ok x =>
           obtain ⟨pv, v⟩ := x
-          obtain ⟨hinv', _, _, _, _, h, rs, eng, hord, hrun⟩ := callPlayer_history env o hr _ p hinv pv v c' hcp
+          obtain ⟨hinv', _, _, _, _, h, rs, eng, _, _, _, hord, _, _, _, hrun⟩ := callPlayer_history Ok env o hr _ p hinv pv v c' hcp
           rw [hd, hpr] at hrun
           exact ⟨⟨p, hp, h, rs, eng, hord, hrun⟩, hinv', hic⟩
   | isInTak position o =>
@@ -94,7 +102,7 @@ theorem step_history (env : Env P M) (s : Server M) (r : Req M) (hr : ReqOK r) (
     | error e => exact ⟨trivial, hac, hic⟩
     | ok p =>
       simp only []
-      obtain ⟨hinv, hsz, hd, hpr⟩ := getPlayer_inv env ic (env.size p) 1 true hic
+      obtain ⟨hinv, hsz, hd, hpr⟩ := getPlayer_inv Ok env ic (env.size p) 1 true hic
       cases hq : env.pass p with
       | error e => exact ⟨trivial, hac, hinv⟩
       | ok q =>
@@ -102,10 +110,10 @@ theorem step_history (env : Env P M) (s : Server M) (r : Req M) (hr : ReqOK r) (
         cases hcp : callPlayer env o (ic.getPlayer env (env.size p) 1 true) q with
         | mk out c' =>
           cases out with
-          | error e => exact ⟨trivial, hac, callPlayer_error_inv env o _ q e c' hcp⟩
+          | error e => exact ⟨trivial, hac, callPlayer_error_inv Ok env o _ q e c' hcp⟩
           | ok x =>
             obtain ⟨pv, v⟩ := x
-            obtain ⟨hinv', _, _, _, _, h, rs, eng, hord, hrun⟩ := callPlayer_history env o hr _ q hinv pv v c' hcp
+            obtain ⟨hinv', _, _, _, _, h, rs, eng, _, _, _, hord, _, _, _, hrun⟩ := callPlayer_history Ok env o hr _ q hinv pv v c' hcp
             rw [hd, hpr] at hrun
             simp only []
             by_cases hv : v > Facts.winThreshold
@@ -117,30 +125,35 @@ theorem step_history (env : Env P M) (s : Server M) (r : Req M) (hr : ReqOK r) (
             · rw [if_neg hv]
               exact ⟨⟨p, q, v, hp, hq, by simp [hv], h, rs, eng, hord, hrun⟩, hac, hinv'⟩
 
-theorem run_history (env : Env P M) :
-    ∀ (reqs : List (Req M)) (s : Server M), (∀ r ∈ reqs, ReqOK r) → ServerInv env s →
-      ∀ x ∈ reqs.zip (Server.run env s reqs).1, AnsweredByHistory env x.1 x.2 := by
+theorem run_history (Ok : Oracle M → Prop) (env : Env P M) :
+    ∀ (reqs : List (Req M)) (s : Server M), (∀ r ∈ reqs, ReqOK Ok r) → ServerInv Ok env s →
+      (∀ x ∈ reqs.zip (Server.run env s reqs).1, AnsweredByHistory Ok env x.1 x.2) ∧
+      ServerInv Ok env (Server.run env s reqs).2 := by
   intro reqs
   induction reqs with
-  | nil => intro s _ _ x hx; simp [Server.run] at hx
+  | nil => intro s _ hs; exact ⟨fun x hx => by simp [Server.run] at hx, hs⟩
   | cons r rest ih =>
-    intro s hreq hs x hx
-    obtain ⟨hans, hs'⟩ := step_history env s r (hreq r (by simp)) hs
+    intro s hreq hs
+    obtain ⟨hans, hs'⟩ := step_history Ok env s r (hreq r (by simp)) hs
     have hrest := ih (s.step env r).2 (fun r' hr' => hreq r' (by simp [hr'])) hs'
-    unfold Server.run at hx
-    split at hx
+    unfold Server.run
+    split
     · rename_i site s' heq
+      rw [heq] at hans hs'
+      refine ⟨?_, hs'⟩
+      intro x hx
       simp only [List.zip_cons_cons, List.zip_nil_right, List.mem_singleton] at hx
       subst hx
-      rw [heq] at hans
       exact hans
     · rename_i out s' hne heq
       rw [heq] at hans hrest
       simp only at hans hrest
+      refine ⟨?_, hrest.2⟩
+      intro x hx
       simp only [List.zip_cons_cons, List.mem_cons] at hx
       rcases hx with rfl | hx
       · exact hans
-      · exact hrest x hx
+      · exact hrest.1 x hx
 
 /-- **`serve_cache_is_history`** — a sequence of requests is a family of histories of `Analyze` calls on per-key
 engines: on a new server (`&server{}`), after any list of earlier requests, each answered `Analyze` request (position
@@ -148,9 +161,9 @@ engines: on a new server (`&server{}`), after any list of earlier requests, each
 built by `NewMinimax` for the request's own (size, depth, precise); each answered `IsPositionInTak` is the last call of
 such a history of depth-1 precise calls on the position after the pass, and `InTak` is `value > WinThreshold`.  (The
 histories are the requests since the cache key last changed; an engine is never shared between two keys.) -/
-theorem serve_cache_is_history (env : Env P M) (reqs : List (Req M)) (hreq : ∀ r ∈ reqs, ReqOK r) :
-    ∀ x ∈ reqs.zip (Server.run env {} reqs).1, AnsweredByHistory env x.1 x.2 :=
-  run_history env reqs {} hreq ⟨cacheInv_empty env, cacheInv_empty env⟩
+theorem serve_cache_is_history (env : Env P M) (reqs : List (Req M)) (hreq : ∀ r ∈ reqs, ReqOK OrderOK r) :
+    ∀ x ∈ reqs.zip (Server.run env {} reqs).1, AnsweredByHistory OrderOK env x.1 x.2 :=
+  (run_history OrderOK env reqs {} hreq ⟨cacheInv_empty _ env, cacheInv_empty _ env⟩).1
 
 /-- what `C05.verdict_sound` gives for one answered request -/
 def VerdictSound (env : Env P M) : Req M → Except Err Resp → Prop
@@ -168,7 +181,7 @@ requests (other positions, other sizes, the same position again, failing request
 -WinThreshold` a real forced loss, and `InTak = true` means that the side to move after the pass has a forced win.
 Hypotheses: C05's for the game of every board size (`HashInj` = no hash collision). -/
 theorem serve_verdict_sound (env : Env P M) (hg : ∀ n, GameOK (env.game n)) (he : ∀ n, EvalOK (env.game n))
-    (hinj : ∀ n, HashInj (env.game n)) (reqs : List (Req M)) (hreq : ∀ r ∈ reqs, ReqOK r) :
+    (hinj : ∀ n, HashInj (env.game n)) (reqs : List (Req M)) (hreq : ∀ r ∈ reqs, ReqOK OrderOK r) :
     ∀ x ∈ reqs.zip (Server.run env {} reqs).1, VerdictSound env x.1 x.2 := by
   intro x hx
   have hh := serve_cache_is_history env reqs hreq x hx
@@ -219,5 +232,94 @@ theorem serve_verdict_sound (env : Env P M) (hg : ∀ n, GameOK (env.game n)) (h
         intro ht
         rw [ht] at hin
         exact hv.1 (by simpa using hin.symm)
+
+/-- the request context is never cancelled and `sort.Sort` permutes -/
+def Quiet (o : Oracle M) : Prop := OrderOK o ∧ NoCancel o
+
+/-- `playerCfg _ 1 true` is a depth-1 configuration -/
+theorem playerCfg_depth1 (tableEntries : Nat) : (playerCfg tableEntries 1 true).depth = 1 := rfl
+
+/-- **`intak_iff`** — on a server that has answered ANY list of requests before (none of them cancelled), an answered
+`IsPositionInTak` request for a position `p` says `InTak = true` **iff** the position `q` after a pass is not finished
+and the side to move in `q` (the side NOT to move in `p`) has a legal move `m` whose result `c` is a finished game
+lost for the side to move in `c` (`eval c < -WinThreshold`: it ended in favour of the player who made `m`); and when
+`InTak` is true, `TakMove` is the spelling of such a move.  Hypotheses: C05's for the games (`EvalOK`: evaluations are
+decisive only for finished games — C18; `EvalBounded`; `HashInj`: no hash collision; `GameOK`). -/
+theorem intak_iff (env : Env P M) (hg : ∀ n, GameOK (env.game n)) (he : ∀ n, EvalOK (env.game n))
+    (hb : ∀ n, EvalBounded (env.game n)) (hinj : ∀ n, HashInj (env.game n))
+    (reqs : List (Req M)) (hreq : ∀ r ∈ reqs, ReqOK Quiet r) (position : Bytes) (o : Oracle M) (ho : Quiet o)
+    (inTak : Bool) (mv : Bytes) (s' : Server M)
+    (hresp : isPositionInTak env o (Server.run env {} reqs).2 position = (.ok (.isInTak inTak mv), s')) :
+    ∃ p q, env.parseTPS position = .ok p ∧ env.pass p = .ok q ∧
+      (inTak = true ↔ (env.game (env.size q)).over q = false ∧
+        ∃ m c, m ∈ (env.game (env.size q)).allMoves q ∧ (env.game (env.size q)).apply q m = .ok c ∧
+          (env.game (env.size q)).over c = true ∧ (env.game (env.size q)).eval c < -Facts.winThreshold) ∧
+      (inTak = true → ∃ m c, mv = env.formatMove m ∧ (env.game (env.size q)).apply q m = .ok c ∧
+          (env.game (env.size q)).over c = true ∧ (env.game (env.size q)).eval c < -Facts.winThreshold) := by
+  have hinv := (run_history Quiet env reqs {} hreq ⟨cacheInv_empty _ env, cacheInv_empty _ env⟩).2
+  generalize (Server.run env {} reqs).2 = s at hresp hinv
+  obtain ⟨ac, ic⟩ := s
+  obtain ⟨_, hic⟩ := hinv
+  simp only [Serve.isPositionInTak] at hresp
+  cases hp : env.parseTPS position with
+  | error e => rw [hp] at hresp; simp only [Prod.mk.injEq] at hresp; cases hresp.1
+  | ok p =>
+    rw [hp] at hresp
+    simp only [] at hresp
+    obtain ⟨hgi, hsz, hd, hpr⟩ := getPlayer_inv Quiet env ic (env.size p) 1 true hic
+    cases hq : env.pass p with
+    | error e => rw [hq] at hresp; simp only [Prod.mk.injEq] at hresp; cases hresp.1
+    | ok q =>
+      rw [hq] at hresp
+      simp only [] at hresp
+      cases hcp : callPlayer env o (ic.getPlayer env (env.size p) 1 true) q with
+      | mk out c' =>
+        rw [hcp] at hresp
+        cases out with
+        | error e => simp only [Prod.mk.injEq] at hresp; cases hresp.1
+        | ok x =>
+          obtain ⟨pv, v⟩ := x
+          simp only [] at hresp
+          obtain ⟨_, _, _, _, _, h, rs, eng, eng0, _, st, hok, hrun0, han, _, _⟩ :=
+            callPlayer_history Quiet env o ho _ q hgi pv v c' hcp
+          rw [hd, hpr] at hrun0 han
+          -- the cached engine satisfies the depth-1 table invariant, so this call is exact
+          have ht0 := runCalls_t1 (hg (env.size q)) (he (env.size q)) (hb (env.size q)) (hinj (env.size q))
+            (playerCfg_depth1 env.tableEntries) (playerCfg_precise env.tableEntries 1) h _ hok
+            (t1_new _ _) _ hrun0
+          have hex := analyze_depth1 (hg (env.size q)) (he (env.size q)) (hb (env.size q)) (hinj (env.size q))
+            (playerCfg_depth1 env.tableEntries) (playerCfg_precise env.tableEntries 1) ho.2 ho.1 q eng0 ht0 _ han
+          obtain ⟨_, hover, hlive⟩ := hex
+          dsimp only at hover hlive
+          refine ⟨p, q, rfl, hq, ?_⟩
+          by_cases hov : (env.game (env.size q)).over q = true
+          · -- finished after the pass: value 0, no tak
+            have hv0 := hover hov
+            have hnot : ¬ (v > Facts.winThreshold) := by rw [hv0]; decide
+            rw [if_neg hnot] at hresp
+            simp only [Prod.mk.injEq, Except.ok.injEq, Resp.isInTak.injEq] at hresp
+            obtain ⟨⟨hin, _⟩, _⟩ := hresp
+            subst hin
+            refine ⟨⟨(fun h => by cases h), (fun h => by rw [hov] at h; cases h.1)⟩, (fun h => by cases h)⟩
+          · have hov' : (env.game (env.size q)).over q = false := by simpa using hov
+            obtain ⟨hval, m, rest, c, hpv, hap, hvc⟩ := hlive hov'
+            have hiff := negamax1_win_iff (hg (env.size q)) (he (env.size q)) q hov'
+            by_cases hwin : v > Facts.winThreshold
+            · rw [if_pos hwin, hpv] at hresp
+              simp only [Prod.mk.injEq, Except.ok.injEq, Resp.isInTak.injEq] at hresp
+              obtain ⟨⟨hin, hmv⟩, _⟩ := hresp
+              subst hin
+              have hex := hiff.mp (by rw [← hval]; exact hwin)
+              refine ⟨⟨fun _ => ⟨hov', hex⟩, fun _ => rfl⟩, fun _ => ⟨m, c, hmv.symm, hap, ?_, by omega⟩⟩
+              by_cases hoc : (env.game (env.size q)).over c = true
+              · exact hoc
+              · have := (he (env.size q)).inside c (by simpa using hoc)
+                omega
+            · rw [if_neg hwin] at hresp
+              simp only [Prod.mk.injEq, Except.ok.injEq, Resp.isInTak.injEq] at hresp
+              obtain ⟨⟨hin, _⟩, _⟩ := hresp
+              subst hin
+              refine ⟨⟨(fun h => by cases h), (fun h => ?_)⟩, (fun h => by cases h)⟩
+              exact absurd (by rw [hval]; exact hiff.mpr h.2) hwin
 
 end C05
